@@ -328,7 +328,7 @@ def run(ck):
                 ck.failing_input("configuration %s: engine and reference differ (default configuration gives %s)"
                                  % (name, "the same" if e0 == e2 else "another result"), case, tag="cfg")
     # ---- definitions in a required module (cross-module inlining)
-    mods = module_cases(ck, g, 10 if ck.tier == "quick" else 200)
+    mods = module_cases(ck, g, 24 if ck.tier == "quick" else 300)
     mmodel = ck.coq_eval(lang.COQ_HEADER, [lang.model_expr(ref) for _, ref in mods], shard=20)
     for env in chosen:
         eng = ck.eval_cases([u for u, _ in mods], fresh=True, env=env, batch=10, timeout_per_batch=90)
